@@ -3,8 +3,8 @@
    Print Assumptions follows every theorem.  abs_of_batch is a function of the batch and the norm function only: the model has no pool and no map; what remains to show is that the places where Go's map iteration order enters cannot matter. *)
 
 From Coq Require Import List NArith Bool Sorting Permutation.
-From Ice Require Import Base Spec Postings Builder.
-From IceProofs Require Immut_Proofs Build_Proofs Builder_Proofs.
+From Ice Require Import Base Spec Postings Builder Pool.
+From IceProofs Require Immut_Proofs Build_Proofs Builder_Proofs Pool_Proofs.
 Import ListNotations.
 Open Scope N_scope.
 
@@ -76,3 +76,87 @@ Theorem builder_model_equals_spec :
     (o_terms (abs_of_batch norm b) f))) (define_fields b).
 Proof. exact @Builder_Proofs.R_build_postings. Qed.
 Print Assumptions builder_model_equals_spec.
+
+(* history independence: a build that starts from ANY reachable state of the pooled builder object (Go slice lengths, capacities and stale backing contents left by any earlier builds and reset()) computes exactly what a build from a fresh object computes, and no re-slice panics *)
+Theorem build_pool_independent :
+    forall (norm : bytes -> N -> N) (perm : N -> nat -> list (bytes * TokFreq) -> list (bytes * TokFreq))
+    (b : Batch),
+    (forall (n : N) (q : nat) (l : list (bytes * TokFreq)), Permutation (perm n q l) l) ->
+    forall st : pstate, Reach st -> build_from st norm perm b = Ok (build_postings_model norm perm b).
+Proof. exact @Pool_Proofs.build_pool_independent. Qed.
+Print Assumptions build_pool_independent.
+
+(* every state reachable through successful builds followed by reset() is clean *)
+Theorem Reach_clean :
+    forall st : pstate, Reach st -> Clean st.
+Proof. exact @Pool_Proofs.Reach_clean. Qed.
+Print Assumptions Reach_clean.
+
+Theorem reset_clean :
+    forall st : pstate, Pool_Proofs.Tidy st -> Clean (pool_reset st).
+Proof. exact @Pool_Proofs.reset_clean. Qed.
+Print Assumptions reset_clean.
+
+(* from a clean state every re-slice of pooled state shows what a fresh allocation shows *)
+Theorem views_equal :
+    forall st : pstate,
+    Clean st ->
+    (forall n : nat, visible (take_include_dv st n) = visible (take_include_dv pool_fresh n)) /\
+    (forall n : nat, visible (take_postings st n) = visible (take_postings pool_fresh n)) /\
+    (forall tot : nat,
+    visible (take_backing (pFNBacking st) tot) = visible (take_backing (pFNBacking pool_fresh) tot)) /\
+    (forall tot : nat,
+    visible (take_backing (pLocsBacking st) tot) = visible (take_backing (pLocsBacking pool_fresh) tot)) /\
+    (forall (n : nat) (counts : list nat),
+    length counts = n ->
+    rmap visible (take_windows (pFreqNorms st) n counts) =
+    rmap visible (take_windows (pFreqNorms pool_fresh) n counts)) /\
+    (forall (n : nat) (counts : list nat),
+    length counts = n ->
+    rmap visible (take_windows (pLocs st) n counts) =
+    rmap visible (take_windows (pLocs pool_fresh) n counts)) /\
+    (forall ops : list (sl_op (list (bytes * nat))),
+    rmap visible (sl_run [] ops (pDicts st)) = rmap visible (sl_run [] ops (pDicts pool_fresh))) /\
+    (forall ops : list dk_op,
+    rmap dk_view (dk_run ops (pDictKeys st)) = rmap dk_view (dk_run ops (pDictKeys pool_fresh))) /\
+    (forall ops : list (sl_op nat),
+    rmap visible (grow_counters ops (pNumTerms st)) =
+    rmap visible (grow_counters ops (pNumTerms pool_fresh))) /\
+    (forall ops : list (sl_op nat),
+    rmap visible (grow_counters ops (pNumLocs st)) =
+    rmap visible (grow_counters ops (pNumLocs pool_fresh))).
+Proof. exact @Pool_Proofs.views_equal. Qed.
+Print Assumptions views_equal.
+
+(* reset() alone does not clean arbitrary states (range loops stop at the length): the invariant over reachable states is needed *)
+Theorem reset_not_clean_in_general :
+    exists st : pstate, ~ Clean (pool_reset st).
+Proof. exact @Pool_Proofs.reset_not_clean_in_general. Qed.
+Print Assumptions reset_not_clean_in_general.
+
+(* regression of the method: a reset() that forgets to clear IncludeDocValues is distinguished by a witness *)
+Theorem reset_bad1_detected :
+    exists (st : pstate) (n : nat),
+    build_step pool_fresh st /\
+    visible (take_include_dv (pool_reset_bad1 st) n) <> visible (take_include_dv pool_fresh n).
+Proof. exact @Pool_Proofs.reset_bad1_detected. Qed.
+Print Assumptions reset_bad1_detected.
+
+Theorem reset_bad2_detected :
+    exists (st : pstate) (n : nat),
+    build_step pool_fresh st /\
+    visible (take_postings (pool_reset_bad2 st) n) <> visible (take_postings pool_fresh n).
+Proof. exact @Pool_Proofs.reset_bad2_detected. Qed.
+Print Assumptions reset_bad2_detected.
+
+Example build_from_example :
+    build_from (pool_reset Pool_Proofs.st_big) Builder_Proofs.exb_norm Builder_Proofs.perm_id
+    Builder_Proofs.exb_batch = Ok Builder_Proofs.exb_result /\
+    build_from (pool_reset Pool_Proofs.st_big) Builder_Proofs.exb_norm Builder_Proofs.perm_rev
+    Builder_Proofs.exb_batch = Ok Builder_Proofs.exb_result /\
+    build_from pool_fresh Builder_Proofs.exb_norm Builder_Proofs.perm_id Builder_Proofs.exb_batch =
+    Ok Builder_Proofs.exb_result /\
+    build_from (pool_reset_bad2 Pool_Proofs.st_big) Builder_Proofs.exb_norm Builder_Proofs.perm_id
+    Builder_Proofs.exb_batch <> Ok Builder_Proofs.exb_result.
+Proof. exact @Pool_Proofs.build_from_example. Qed.
+Print Assumptions build_from_example.
